@@ -165,14 +165,30 @@ async def lexer_state(st, idx, sd, acc, n_dead):
                       {"string": s3, "expected": exp3, "entry": "resolver"})
     dead = sorted(set(ALL_CLASSES) - set(st["obs"]["en"]))
     rng.shuffle(dead)
+    closing = ("]" if st["mode"] != "out" else "") + ")" * st["depth"]      # what would complete the prefix if the refused character were allowed
     for c in dead[:n_dead]:
         suffix = render_classes([rng.choice(ALL_CLASSES[:15]) for _ in range(rng.randint(0, 4))], rng)
-        for s2 in {s + rng.choice(REPS[c]), s + rng.choice(REPS[c]) + suffix}:
+        bad = s + rng.choice(REPS[c])
+        for s2 in {bad, bad + suffix, bad + closing, bad + rng.choice(["1", "2"]) + closing}:
             g2 = parse_cond(s2)
             acc.c("parses")
             if g2 != "reject":
                 acc.v(f"condition parser on {s2!r}: {g2}; after {s!r} a character of class '{c}' cannot be continued to a well-formed expression",
                       {"string": s2, "expected": "reject", "entry": "condition"})
+        if idx % 3 == 0:
+            # the same near miss as the condition part of an AHB expression
+            for s2 in (bad + closing, bad + rng.choice(["1", "3"]) + closing):
+                s3 = rng.choice(["Muss ", "M", "Soll ", "k "]) + s2
+                v3, _ = await parse_resolver(s3)
+                acc.c("parses")
+                if v3 != "reject":
+                    acc.v(f"resolver on {s3!r}: {v3}; its condition part is not a well-formed condition expression (class '{c}' cannot follow {s!r})",
+                          {"string": s3, "expected": "reject", "entry": "resolver"})
+                elif idx % 9 == 0:
+                    k, r = await validity(s3)
+                    acc.c("validity_checks")
+                    if k != "returned" or r[0] is not False or not r[1]:
+                        acc.v(f"is_valid_expression({s3!r}): {k} {r}, expected (False, message)", {"string": s3, "expected": "reject", "entry": "validity"})
     if len(acc.samples) < 3 and exp == "accept" and len(cls) >= 6 and rng.random() < 0.02:
         acc.samples.append({"level": "characters", "classes": " ".join(cls), "string": s, "spec": exp, "code": got})
 
@@ -233,6 +249,32 @@ async def ahb_state(st, idx, sd, acc):
             await expect_reject_everywhere(s2, acc, f"token {t} cannot follow {' '.join(toks)}")
 
 
+async def ahb_long_state(st, idx, sd, acc):
+    """long AHB expressions (many modal-mark parts): only acceptance / rejection of the string itself"""
+    toks = list(st["consumed"])
+    if len(toks) < 7:
+        return
+    rng = random.Random(sd * 1000003 + idx)
+    s, _ = AS.render(toks, rng)
+    exp = "accept" if st["obs"]["acc"] else "reject"
+    acc.c("states_replayed")
+    acc.distinct.add(hash(("ahblong",) + tuple(toks)))
+    v, _ = await parse_resolver(s)
+    acc.c("parses")
+    if v != exp:
+        acc.v(f"resolver on {s!r} (tokens {' '.join(toks)}): {v}, the documented language says {exp}", {"string": s, "tokens": toks, "entry": "resolver", "expected": exp})
+    a, _ = parse_ahb_only(s)
+    acc.c("parses")
+    if a.startswith("exception") or (exp == "accept" and st["obs"]["parts"] != () and a != "accept"):
+        acc.v(f"AHB parser on {s!r} (tokens {' '.join(toks)}): {a}, the string is one of the documented forms" if exp == "accept" else f"AHB parser on {s!r}: {a}",
+              {"string": s, "tokens": toks, "entry": "ahb", "expected": exp})
+    if exp == "reject" and idx % 5 == 0:
+        k, r = await validity(s)
+        acc.c("validity_checks")
+        if k != "returned" or r[0] is not False or not r[1]:
+            acc.v(f"is_valid_expression({s!r}): {k} {r}, expected (False, message)", {"string": s, "entry": "validity", "expected": "reject"})
+
+
 def _worker(args):
     which, dump, shard, nshards, sd, extra = args
     import ahb
@@ -246,6 +288,8 @@ def _worker(args):
             try:
                 if which == "lexer":
                     await lexer_state(st, idx * nshards + shard, sd, acc, extra)
+                elif which == "ahblong":
+                    await ahb_long_state(st, idx * nshards + shard, sd, acc)
                 else:
                     await ahb_state(st, idx * nshards + shard, sd, acc)
             except Exception as e:
@@ -394,6 +438,15 @@ def run():
     with mp.get_context("fork").Pool(16) as pool:
         merge(res, pool.map(_worker, [("ahb", str(dumpa), i, 16, seed(), 0) for i in range(16)]))
     dumpa.unlink()
+    nlong = 12 if thorough else 10
+    cfgl = work.path("ahbsplit-long.cfg")
+    cfgl.write_text(f"CONSTANTS\n MaxTok = {nlong}\n Alphabet = {{\"M\", \"K\", \"a\", \"U\"}}\nINIT MCInit\nNEXT MCNext\nINVARIANT ObsIsConsistent\nINVARIANT SplitIsLossless\nCHECK_DEADLOCK FALSE\n")
+    dumpl = work.path("ahbsplit-long.dump")
+    tl = run_tlc("AhbSplit", str(cfgl), work, dump=dumpl, timeout=3000, tag="ahbsplit-long")
+    res.add_tlc(f"AhbSplit: all viable prefixes <= {nlong} tokens over a small alphabet (two modal words, operand, U): up to {nlong // 2} modal-mark parts", tl)
+    with mp.get_context("fork").Pool(16) as pool:
+        merge(res, pool.map(_worker, [("ahblong", str(dumpl), i, 16, seed(), 0) for i in range(16)]))
+    dumpl.unlink()
     res.coverage["traces_validated_against_impl"] += res.coverage.get("parses", 0) + res.coverage.get("validity_checks", 0)
     res.coverage["evaluations"] = res.coverage.get("parses", 0) + res.coverage.get("validity_checks", 0)
     lexer_traces(res, work, 20000 if thorough else 2500)
